@@ -381,7 +381,7 @@ fn gen_timestamp(rng: &mut Rng, fmt: &str, style: Style) -> String {
 struct Gen<'a> {
     tables: &'a Value,
     style: Style,
-    /// write a member that is bound to an attribute (`Grantee`'s `xsi:type`) the way s3s did until 1dc4ea8: as a child
+    /// write a member that is bound to an attribute (`Grantee`'s `xsi:type`) the way s3s did until 680006e: as a child
     /// element of that name (such documents are refused now)
     attr_as_child: bool,
     /// shuffle members, add whitespace / comments between members, attributes, `<a/>` for empty elements
@@ -905,7 +905,7 @@ fn generate(rng: &mut Rng, n: u64, tier: &str, emit: &mut dyn FnMut(Vec<String>)
         }
     }
     // S7: `Grantee`'s `xsi:type`, for the types that contain it. Every generator above writes it the way the Smithy
-    // model says and an SDK does (attribute + namespace declaration; the class `xml-xsi-type`, repaired by 1dc4ea8).
+    // model says and an SDK does (attribute + namespace declaration; the class `xml-xsi-type`, repaired by 680006e).
     // Here: the same documents in the free layouts (either quote, references, declaration behind the attribute or
     // left out, white space around `=`), and the form s3s read and wrote until then — a child element `<xsi:type>` —
     // which must be refused now.
